@@ -1,14 +1,31 @@
 use super::{constant::*, ConfigEntity};
 use crate::{base::ResourceType, logging, utils, Error, Result};
 use serde_yaml;
+use lazy_static::lazy_static;
 use std::cell::RefCell;
 use std::env;
 use std::fs::File;
 use std::io::prelude::*;
 use std::path::Path;
+use std::sync::Mutex;
 
-thread_local! {
-    static GLOBAL_CONFIG : RefCell<ConfigEntity> = RefCell::new(ConfigEntity::new());
+/// The configuration is shared by every thread of the process.
+struct GlobalConfig(Mutex<RefCell<ConfigEntity>>);
+
+impl GlobalConfig {
+    fn with<R>(&self, f: impl FnOnce(&RefCell<ConfigEntity>) -> R) -> R {
+        let guard = self.0.lock().unwrap_or_else(|e| e.into_inner());
+        f(&guard)
+    }
+
+    fn try_with<R>(&self, f: impl FnOnce(&RefCell<ConfigEntity>) -> R) -> std::result::Result<R, ()> {
+        Ok(self.with(f))
+    }
+}
+
+lazy_static! {
+    static ref GLOBAL_CONFIG: GlobalConfig =
+        GlobalConfig(Mutex::new(RefCell::new(ConfigEntity::new())));
 }
 
 pub fn reset_global_config(entity: ConfigEntity) {
@@ -226,9 +243,7 @@ pub fn global_stat_sample_count_total() -> u32 {
 
 #[inline]
 pub fn global_stat_bucket_length_ms() -> u32 {
-    GLOBAL_CONFIG
-        .try_with(|_c| global_stat_interval_ms_total() / global_stat_sample_count_total())
-        .unwrap()
+    global_stat_interval_ms_total() / global_stat_sample_count_total()
 }
 
 #[inline]
